@@ -892,7 +892,7 @@ fn main() {
     std::env::remove_var("VERIF_WORKERS");
     let det_mismatch = u64::from(a.result_hash != b.result_hash || a.evaluations != b.evaluations);
     if det_mismatch != 0 {
-        report.harness_errors.push("determinism self-check failed: identical items gave different observations".into());
+        report.soft_errors.push("determinism self-check failed: identical items gave different observations".into());
     }
 
     // write-site reach (documents that are cheap to profile)
